@@ -43,7 +43,7 @@ META = {
                           'numdifftools.extrapolation.dea3', 'numdifftools.core.Derivative.__call__ (+Gradient, Jacobian, Hessdiag, '
                           'Hessian) info assembly'],
     'bounds': {'quick': 'unit: (k rows, c columns) in {(1,2),(2,2),(3,2),(4,2),(5,2),(6,1),(7,1),(4,3),(7,2),(8,1),(5,3),(6,2),(4,4 as (2,2))}, richardson terms 1,2; record: dimension <= 2',
-               'thorough': 'unit additionally (9,1),(8,2),(6,3); record: dimension <= 3, all five methods'},
+               'thorough': 'unit additionally (9,1),(10,1),(6,3); record: dimension <= 3, all five methods'},
     'outside_claim': ['whether 12.7*sigma is a calibrated bound on noisy data (a rescaled estimate is NOT detected)',
                       'the fixed-multiple bound for transcendental f', 'more than 8 rows / 4 columns'],
     'stubs': ['module global np -> symbolic numpy proxy (percentile as merged sorting network, nanargmin / flatnonzero forking)',
@@ -64,7 +64,7 @@ def jobs(tier, seed):
              (2, 2, [2], 2), (1, 2, [2], 2)]
     units += [(4, 3, [3], 2), (7, 2, [2], 2), (8, 1, [], 2), (5, 3, [3], 2), (4, 4, [2, 2], 2), (6, 2, [2], 1)]
     if th:
-        units += [(9, 1, [], 2), (8, 2, [2], 2), (6, 3, [3], 2), (8, 2, [2], 1)]
+        units += [(9, 1, [], 2), (10, 1, [], 2), (6, 3, [3], 2)]
     for (k, c, shape, nt) in units:
         out.append(('unit-k%d-c%d-t%d' % (k, c, nt), dict(kind='unit', k=k, c=c, shape=shape, nt=nt, cls='', method='')))
     for method in ('central', 'forward', 'backward', 'complex'):
